@@ -136,7 +136,9 @@ class MosFile:
         """
         The XML string of the MOS file
         """
-        return ElementTree.tostring(self.xml, encoding='unicode')
+        # ElementTree writes a carriage return in text as it is, and XML
+        # parsers read that back as a line feed: write a character reference
+        return ElementTree.tostring(self.xml, encoding='unicode').replace('\r', '&#13;')
 
     def __lt__(self, other) -> bool:
         """
